@@ -126,6 +126,11 @@ func replayMain(file string) int {
 		return 2
 	}
 	journal(&sc)
+	for _, pre := range sc.Prelude {
+		if pp, ok := props.Registry[pre.Prop]; ok {
+			pp.Run(pre)
+		}
+	}
 	v := p.Run(&sc)
 	fmt.Printf("REPLAY-TRACE steps=%d requests=%d handoffs=%d order_sig=%x sched_sig=%x probes=%v\n", v.Steps, v.Requests, v.Handoffs, v.OrderSig, v.SchedSig, v.Probes)
 	if v.Violation {
@@ -199,6 +204,10 @@ type ViolationReport struct {
 
 var journalPath string
 
+// recent holds the last few scenarios a worker ran without a violation: candidates for the
+// prelude of a violation that only shows after earlier calls in the same process.
+var recent []*props.Scenario
+
 func journal(sc *props.Scenario) {
 	if journalPath == "" {
 		return
@@ -246,6 +255,12 @@ func workerMain() int {
 		}
 		journal(sc)
 		v := p.Run(sc)
+		if !v.Violation {
+			recent = append(recent, sc)
+			if len(recent) > 3 {
+				recent = recent[1:]
+			}
+		}
 		res.Runs++
 		res.Evals += v.Evals
 		res.Steps += v.Steps
@@ -373,6 +388,27 @@ func reportViolation(p props.Property, sc *props.Scenario, v *props.Verdict) (Vi
 	if freshReplayFails(file) {
 		rep.Note = "minimised scenario did not reproduce; original reported"
 		return rep, ""
+	}
+	// the scenario fails here but not alone in a fresh process: does it fail after the scenarios
+	// this worker ran before it? Then the library keeps state between calls, and the replay file
+	// is the sequence.
+	for _, k := range []int{1, len(recent)} {
+		if k == 0 || k > len(recent) {
+			continue
+		}
+		seq := orig.Clone()
+		seq.Prelude = nil
+		for _, pre := range recent[len(recent)-k:] {
+			seq.Prelude = append(seq.Prelude, pre.Clone())
+		}
+		seq.Clause = v.Clause
+		seq.Note = strings.TrimSpace(seq.Note + fmt.Sprintf(" (fails only after %d earlier scenario(s) in the same process: state is left behind between calls)", k))
+		write(seq)
+		if freshReplayFails(file) {
+			rep.Clause = v.Clause
+			rep.Note = "needs a prelude of earlier calls in the same process"
+			return rep, ""
+		}
 	}
 	return rep, fmt.Sprintf("determinism failure: run seed %#x fails in the worker but its replay file %s does not fail in a fresh process", sc.RunSeed, file)
 }
